@@ -280,6 +280,18 @@ func genC03(tier, out string, sum *Summary) {
 			}
 		}
 	}
+	// every combination of two constructs on hostile values, and the spellings the canonical printer never produces
+	for _, sc := range smallScope(ssCfg{funcs: true, lets: true, errs: true, bools: true}, 1, 3000) {
+		text := unparse(sc.e)
+		quiet(text, sc.doc, "small-scope")
+		quiet(text, leaves[rng.Intn(len(leaves))], "small-scope")
+		quiet(text, []any{leaves[rng.Intn(len(leaves))], map[string]any{"a": leaves[rng.Intn(len(leaves))], "b": []any{leaves[rng.Intn(len(leaves))]}}}, "small-scope")
+	}
+	for _, e := range []string{"[*].[*]", "a[*].[*]", "[].[*]", "*.[*]", "[?a].[*]", "[0:1].[*]", "[*].[*].[*]", "a.[*]", "@.[*]", "a.*.[*]", "[*].*", "*.*", "a[*].*.*", "[*].[ *]", "a.[ *, b]", "[*].{a: *}", "a[?b].[*][0]", "[*].[*] | [0]", "map(&[*], @)", "a | [*].[*]", "(a)[*].[*]", "a[*].[*][*]", "a[][].[*]", "[::2].[*]", "[::-1].[*].[*]"} {
+		for _, d := range []string{`[[1,2],[3]]`, `{"a":[[1],[2,[3]]],"b":{"a":1}}`, `[{"a":1},{"a":[1,2]},null,3]`, `null`, `"s"`, `[]`, `{}`} {
+			run(e, jsonDoc(d), "special-spellings")
+		}
+	}
 	// every string of up to four symbols over the delimiters, the escape character and a one- and a
 	// two-byte letter: unterminated and oddly escaped literals of every kind
 	alphabet := []string{"`", "'", "\"", "\\", "a", "\u00e9", "[", "]", " ", "{"}
@@ -378,6 +390,46 @@ func genC04(tier, out string, sum *Summary) {
 	for _, inner := range []string{"a | b", "a || b", "a && b", "!a", "a == b", "a + b", "- a", "let $x = a in $x", "a[?b | c]", "[a, b]", "{k: a}", "abs(a)", "a[*].b", "*", "@", "$", "`1`", "'x'", "a.b[0]", "(a)", "a[0:1]", "[?a]", "[]", "[*]", "a | b | c"} {
 		for _, ctx := range []string{"x[?%s]", "[?%s]", "x[*][?%s].y", "(%s)", "[%s]", "[a, %s]", "{k: %s}", "abs(%s)", "sort_by(x, &%s)", "map(&%s, x)", "let $v = %s in $v", "let $v = a in %s", "x | %s", "%s | x", "not_null(a, %s)", "x[?a == %s]", "!(%s)", "x[?(%s)]", "x.[%s]", "x.{k: %s}"} {
 			emit(fmt.Sprintf(ctx, inner), "valid")
+		}
+	}
+	// every built-in with every argument count up to its maximum: the call must be closed by ")" and by nothing else
+	for _, f := range sigs {
+		for k := f.min; k <= len(f.args) && k <= 4; k++ {
+			if k == 0 {
+				continue
+			}
+			args := make([]string, k)
+			for i := range args {
+				args[i] = "a"
+				if i < len(f.args) && strings.HasPrefix(f.args[i], "&") {
+					args[i] = "&a"
+				}
+			}
+			body := f.name + "(" + strings.Join(args, ", ")
+			for _, tail := range []string{"", "]", "}", " in", " 'x'", " b", ";", ")(", "))", " ) )"} {
+				emit(body+tail, "invalid")
+			}
+			for _, wrap := range []string{"[%s]", "{k: %s}", "x[?%s]", "(%s)", "x | %s"} {
+				for _, tail := range []string{"", "]", " b"} {
+					emit(fmt.Sprintf(wrap, body+tail), "invalid")
+				}
+			}
+		}
+	}
+	// characters that are white space elsewhere but not in this grammar (only space, tab, LF, CR are), at either
+	// end and in the middle of valid expressions
+	for _, ws := range []string{"\v", "\f", "\u00a0", "\u0085", "\u2028", "\u2029", "\u3000", "\ufeff", "\u200b", "\u1680", "\x00"} {
+		for _, v := range []string{"a", "a.b", "a | b", "[0]", "`1`", "'x'", "abs(a)"} {
+			emit(ws+v, "invalid")
+			emit(v+ws, "invalid")
+			emit(ws+v+ws, "invalid")
+		}
+		emit("a"+ws+"| b", "invalid")
+		emit("a ."+ws+"b", "invalid")
+	}
+	for _, ws := range []string{" ", "\t", "\n", "\r", " \t\r\n "} {
+		for _, v := range []string{"a", "a.b", "a | b", "[0]", "`1`", "'x'", "abs(a)"} {
+			emit(ws+v+ws, "valid")
 		}
 	}
 	// bounded-exhaustive short strings over the characters that matter to the lexer: the model decides membership
